@@ -36,6 +36,8 @@ AccSets(r) ==
   \cup {{p} : p \in Mention(r)}
   \cup UNION {{A \ {p} : p \in A} : A \in Readings(r)}
   \cup UNION {{{p}, Priv \ {p}} : p \in IF Thorough /\ Mode # "all" THEN Priv ELSE Pick(r)}
+  \cup (IF r.t \in 348..353   \* account administration: the unused "change own password" privilege (18) alone and with the rest
+          THEN {{18}, Mention(r) \cup {18}, (Priv \ Mention(r)) \ {18}, Defined \ Mention(r)} ELSE {})
   \cup (IF Thorough /\ Mode # "all"
           THEN UNION {{Rand(r.t + n) \cup A, Rand(r.t + n) \ A} : A \in Readings(r), n \in 1..16}
           ELSE {})
@@ -86,7 +88,20 @@ UpdSets == {{i} : i \in Priv} \cup {{}, Priv, Defined, Priv \ {40}, Defined \ {2
            \cup {Rand(n) : n \in 1..(IF Thorough /\ Mode # "all" THEN 300 ELSE 12)}
 UpdSteps == UNION {{[op |-> "upd", via |-> v, S |-> S, old |-> o] : v \in {349, 353}, o \in {{}, Priv \ S}} : S \in UpdSets}
 
-FirstSteps == (IF On("c05") THEN HandleSteps ELSE {}) \cup (IF On("c06") THEN CreateSteps \cup KickSteps ELSE {})
+(* an account with several live sessions is edited; then one of its sessions is the target of a disconnect request /
+   creates an account *)
+MultiNK == {<<1, 1>>, <<2, 1>>, <<2, 2>>, <<3, 2>>, <<3, 3>>}
+RevBits == {22, 40, 0, (Seed * 17 + 3) % 64} \cup (IF Thorough /\ Mode # "all" THEN Priv ELSE {})
+MultiSteps ==
+  {[op |-> "multi", kind |-> "kick", edit |-> ed, n |-> nk[1], k |-> nk[2], a0 |-> aa[1], a1 |-> aa[2], ban |-> b,
+    via |-> 350, want |-> {}] :
+     ed \in {349, 353}, nk \in MultiNK, aa \in {<<{}, {23}>>, <<Priv \ {23}, Priv>>, <<{23}, {23, 9}>>}, b \in {0, 1, 2}}
+  \cup
+  {[op |-> "multi", kind |-> "create", edit |-> ed, n |-> nk[1], k |-> nk[2], a0 |-> {14, p}, a1 |-> {14} \ ({p} \ {14}), ban |-> 0,
+    via |-> v, want |-> {p}] :
+     ed \in {349, 353}, nk \in MultiNK, p \in RevBits \ {14}, v \in {349, 350}}
+
+FirstSteps == (IF On("c05") THEN HandleSteps ELSE {}) \cup (IF On("c06") THEN CreateSteps \cup KickSteps \cup MultiSteps ELSE {})
               \cup (IF On("c16") THEN RtSteps \cup UpdSteps ELSE {})
 
 (* second step (model check only): the account just created creates another one *)
@@ -106,7 +121,7 @@ Spec == MCInit /\ [][Next]_mcvars
 (* ---- invariants of the instance -------------------------------------------- *)
 TablesOK == ReqMatchesGov /\ KeysUnique /\ Cardinality(Types) = 43
             /\ Cardinality(AllNames) = 40 /\ \A i \in Defined : Num(Name[i]) = i
-GuardOK == \A i \in DOMAIN hist : hist[i].op \in {"handle", "create", "kick", "rt", "upd"}
+GuardOK == \A i \in DOMAIN hist : hist[i].op \in {"handle", "create", "kick", "rt", "upd", "multi"} /\ Guard(hist[i])
 (* chains: what the second account holds, the first creator held *)
 NoChainAmplification ==
   ("newacct2" \in DOMAIN accts) => accts["newacct2"] \subseteq cap["newacct"]
